@@ -30,21 +30,21 @@ PENDING = {
 
 CHECKS = {
     "C07": {
-        "text": "Seeded search (deterministic simulation with fault injection) over KroneckerFactoredLattice configurations and histories of real tf_keras optimizer steps in both families (update-all-then-constrain-all vs per-variable update->constrain), permuted/partial grads_and_vars, hostile gradients (blast, adversarial tape, sign-flipper, zero-maker), manual constraint application, finalize_constraints, raw writes and snapshot/restore. After every event at which each variable's constraint has been applied since its last raw write, output monotonicity along every increasing dimension and output bounds are checked on redrawn probe lines (in range, on vertices, out of range when clip_inputs). Sampling, not proof: a clean batch is evidence that no order/sign-pattern/configuration in the explored distribution breaks the property.",
+        "text": "Seeded search (deterministic simulation with fault injection) over KroneckerFactoredLattice configurations (lattice_sizes 2-5, dims 1-4, units 1-3, terms 1-4, every monotonicity subset incl. none, bound modes none/min/max/both incl. bounds equal to 0, clip on/off, tensor or list inputs, default or hostile initializers) and histories of real tf_keras optimizer steps in both families (update-all-then-constrain-all vs per-variable update->constrain), permuted/partial grads_and_vars, hostile gradients (blast, adversarial tape, sign-flipper, zero-maker), manual constraint application in either order, finalize_constraints, raw writes and snapshot/restore. After every event at which each variable's constraint has been applied since its last raw write, output monotonicity along every increasing dimension and output bounds are checked on redrawn probe lines (in range, on vertices, out of range when clip_inputs). Sampling, not proof: a clean batch is evidence that no order/sign-pattern/configuration in the explored distribution breaks the property.",
         "design_ref": "DESIGN.md sections 2 and 4",
-        "note": "Trusted: TF eager kernels, tf_keras optimizers, float32 tolerance 1e-5*(1+|bias|+mean|scale|*prod max|w|), finite probe sets, the per-variable reading of 'constraints have been applied'. One known finding (stale kernel projection after a scale sign flip) is listed in known_findings.json and matched only by its structural condition.",
+        "note": "Trusted: TF eager kernels, tf_keras optimizers, float32 tolerance 1e-5*(1+|bias|+mean|scale|*prod max|w|), finite probe sets, the per-variable reading of 'constraints have been applied'. One known finding (stale kernel projection after a scale sign change caused by a raw write) is listed in known_findings.json and matched only by its structural condition; a sign flip performed by the scale constraint itself is never excused.",
         "technique": "deterministic simulation with fault injection: seeded schedule/fault search with reference state machine, ddmin minimisation and exact replay",
     },
     "C03": {
-        "text": "Seeded search over premade model configs (CalibratedLinear / CalibratedLattice / CalibratedLatticeEnsemble with explicit, random and RTL structure, both parameterizations, output calibration) and hand-assembled calibrator->lattice/linear/KFL/RTL stacks, driven by histories of hostile real-optimizer steps, order/subset perturbations, learning-rate jumps, optimizer swaps, finalize, checkpoints in several formats, soft/hard crashes and restores. After construction and after every event the model output is compared on input pairs differing in one constrained feature (numeric increasing/decreasing, categorical pairs) and against configured output bounds including missing values.",
+        "text": "Seeded search over premade model configs (CalibratedLinear / CalibratedLattice / CalibratedLatticeEnsemble with explicit, random and RTL structure, both parameterizations, output calibration, linear combination, trusts, dominances, unimodality) and hand-assembled stacks (separate calibrators or ParallelCombination -> Lattice | Linear | KroneckerFactoredLattice | RTL | multi-unit lattice + average, optional output calibrator, monotonic_at_every_step on/off), driven by histories of hostile real-optimizer steps, order/subset perturbations, learning-rate jumps, optimizer-family switches, real Model.fit calls, finalize, checkpoints in six formats, soft crashes with global-state skew, lost checkpoints, restarts that re-run the model-building code, and weight reloads. After construction and after every event the model output is compared on input pairs differing in one constrained feature (numeric increasing/decreasing, categorical pairs) and against configured output bounds including missing values, on random plus keypoint/corner probes.",
         "design_ref": "DESIGN.md sections 2 and 3",
-        "note": "Trusted: TF eager kernels, tf_keras optimizers/saving, tolerance 1e-5*(1+max|output|+max|weight|), finite probe sets; EMA and non-finite gradients excluded. Known findings are matched by structural condition only.",
+        "note": "Trusted: TF eager kernels, tf_keras optimizers/saving, tolerance 1e-5*(1+bound on intermediate magnitudes+max|output|), finite probe sets; EMA and non-finite gradients excluded; monotonic_at_every_step=False stacks are checked only after finalize. Known findings (KFL stale kernel projection) are matched by structural condition only.",
         "technique": "deterministic simulation with fault injection: seeded history/fault search over real models with pairwise output oracle, ddmin minimisation and exact replay",
     },
     "C11": {
-        "text": "Seeded search over tfl layers, functional stacks and premade models with non-default constructor arguments, driven through histories of training steps, checkpoints (config JSON + H5/TF weights, full H5, .keras, SavedModel, get_weights), soft crashes with global-state skew, hard crashes (fresh interpreter, other PYTHONHASHSEED, only tfl.premade.get_custom_objects()), lost newest checkpoint and second-hop restores. At every restore the rebuilt object's config, variables, constraints, outputs on recorded probes and assert_constraints status are compared with the durable image recorded by a trivial in-memory reference model.",
+        "text": "Seeded search over single tfl layers with themed non-default constructor arguments (PWLCalibration, CategoricalCalibration, Lattice incl. single-tuple 2D constraints, Linear, KroneckerFactoredLattice, RTL incl. grouped inputs, CDF, ParallelCombination), hand-assembled stacks and the four premade model classes (incl. AggregateFunction on ragged inputs), driven through histories of training steps, checkpoints (config JSON + legacy-H5 / v3 / TF-format weights, full H5, .keras, SavedModel, in-memory weights), soft crashes with global-state skew, hard crashes (fresh interpreter, other PYTHONHASHSEED, only tfl.premade.get_custom_objects()), restarts that re-run the model-building code and load saved weights (seed-derived structure is recomputed), lost newest checkpoint and second-hop restores. At every restore the rebuilt object's model config, sub-layer configs, constructor-argument attributes, variables and attached constraints, outputs on recorded probes, regularization penalty and assert_constraints status are compared with the durable image recorded by a trivial in-memory reference model; in addition every layer, constraint, initializer, regularizer and config object reachable from the model is rebuilt from get_config() twice from the same dictionary and compared by config and by behaviour.",
         "design_ref": "DESIGN.md sections 2 and 5",
-        "note": "Trusted: h5py/zip/SavedModel writers, atomic checkpoint files, equality tolerance 1e-6*(1+|y|).",
+        "note": "Trusted: h5py/zip/SavedModel writers, atomic checkpoint files, equality tolerance 1e-6*(1+|y|); Keras-only artefacts (optimizer slots in legacy H5, v3 weight files of compiled models) are avoided.",
         "technique": "deterministic simulation with fault injection: seeded crash-point/restart search against an in-memory durable-image reference model, ddmin minimisation and exact replay",
     },
 }
